@@ -6,6 +6,7 @@ import json
 import logging
 import multiprocessing
 import os
+import pathlib
 import pickle
 import random
 import shutil
@@ -546,13 +547,23 @@ class FaultyStorage(Storage):
     """LocalStorage that performs mkdir and open as two separate effects, counts effects, and stops the writer
     (exception, or os._exit for kills) once `fail_after` effects have completed."""
 
-    def __init__(self, inner, fail_after=None, kill=False, flushed=True, exc='exception', commit_at_close=False):
+    def __init__(self, inner, fail_after=None, kill=False, flushed=True, exc='exception', commit_at_close=False, root=None):
         self.inner, self.fail_after, self.kill, self.flushed, self.exc = inner, fail_after, kill, flushed, exc
+        self.root = root
         self.commit_at_close = commit_at_close
         self.count = 0
         self.trace = []
         self.armed = True
         self.open_files = []
+
+    def _key_dir(self, key):
+        """The directory of a key: through the storage's own (private) helper where it has the name this harness knows, else
+        computed from the root the storage was created on, after the storage itself has validated the key."""
+        helper = getattr(self.inner, '_key_to_path', None)
+        if helper is not None:
+            return pathlib.Path(helper(key))
+        self.inner.exists(key)
+        return pathlib.Path(self.root) / key
 
     def before(self, kind, file=None):
         if self.armed and self.fail_after is not None and self.count >= self.fail_after:
@@ -583,7 +594,7 @@ class FaultyStorage(Storage):
         if not any(c in mode for c in 'wax+'):
             return self.inner.file_handle(key, filename, mode=mode)
         self.before('mkdir')
-        kp = self.inner._key_to_path(key)
+        kp = self._key_dir(key)
         kp.mkdir(exist_ok=True)
         self.done('mkdir')
         self.before('open')
@@ -624,7 +635,7 @@ def save_counts(cache_kind, shape):
     """Dry run through the real run_or_load_task: the storage effects of one save (kinds, in order)."""
     d = tempfile.mkdtemp(dir=subdir('fault'))
     try:
-        st = FaultyStorage(LocalStorage(os.path.join(d, 's')))
+        st = FaultyStorage(LocalStorage(os.path.join(d, 's')), root=os.path.join(d, 's'))
         lab = Lab(storage=st, continue_on_failure=True, runner_backend='serial', notebook=False)
         t = fault_task(cache_kind, shape)
         res = lab.run_tasks([t], bust_cache=True, disable_progress=True, disable_top=True)
@@ -655,7 +666,7 @@ def _inner_storage(d, kind):
 
 def _child_save(d, cache_kind, shape, n, flushed, inner_kind='local'):
     logging.getLogger('labtech').setLevel(logging.CRITICAL)
-    st = FaultyStorage(_inner_storage(d, inner_kind), fail_after=n, kill=True, flushed=flushed)
+    st = FaultyStorage(_inner_storage(d, inner_kind), fail_after=n, kill=True, flushed=flushed, root=os.path.join(d, 's'))
     lab = Lab(storage=st, continue_on_failure=True, runner_backend='serial', notebook=False)
     lab.run_tasks([fault_task(cache_kind, shape)], bust_cache=True, disable_progress=True, disable_top=True)
     os._exit(0)
@@ -684,7 +695,8 @@ def run_fault(fc):
             p.start()
             p.join(60)
         else:
-            st = FaultyStorage(inner, fail_after=fc['n'], exc=fc.get('exc', 'exception'), commit_at_close=bool(fc.get('commit_at_close')))
+            st = FaultyStorage(inner, fail_after=fc['n'], exc=fc.get('exc', 'exception'), commit_at_close=bool(fc.get('commit_at_close')),
+                               root=os.path.join(d, 's'))
             lab = Lab(storage=st, continue_on_failure=True, runner_backend='serial', notebook=False)
             try:
                 res = lab.run_tasks([t], bust_cache=True, disable_progress=True, disable_top=True)
